@@ -286,6 +286,7 @@ def tlc_validate(ctx, module, cfg_name, trace_files, trace_name, overrides=None,
         for m in re.finditer(r'^<<\s*"REJECT",(.*?)>>\s*$', out, re.M | re.S):
             pass
         rejects += parse_rejects(out)
+        ctx.unmodelled += len(re.findall(r'^<<\s*"UNMODELLED"', out, re.M))
     ctx.traces += total
     return rejects
 
